@@ -1,6 +1,6 @@
 (** Non-vacuity for C11_frag: programs of the fragment, by computation. *)
 From Coq Require Import NArith List.
-From FF Require Import Aml.Grammar Aml.WfProgram Aml.ParserFragF0Final Aml.ParserFragF1Final Aml.ParserFragF3Final Aml.ParserFragF4Final Aml.ParserFragF5Final Aml.ParserFragF6Final Aml.ParserFragF7Final Aml.ParserFragT2Final Props.C11_frag.
+From FF Require Import Aml.Grammar Aml.WfProgram Aml.ParserFragF0Final Aml.ParserFragF1Final Aml.ParserFragF3Final Aml.ParserFragF4Final Aml.ParserFragF5Final Aml.ParserFragF6Final Aml.ParserFragF7Final Aml.ParserFragT2Final Aml.ParserFragT2F7Final Props.C11_frag.
 Import ListNotations.
 Local Open Scope N_scope.
 
@@ -278,4 +278,38 @@ Example C11_fragment_F7_excludes :
   in_fragment_F7 [[AName (f0_nm 0x50 0x4b 0x47 0x30) (APackage 1 1 [ARef (f0_nm 0x41 0x42 0x43 0x44)])]] = false /\
   in_fragment_F7 [[AName (f0_nm 0x42 0x55 0x46 0x30) (ABuffer 1 (AConst OP_BYTE 2) [1; 2])]] = false /\
   wf_program [[AName (f0_nm 0x50 0x4b 0x47 0x30) (APackage 1 256 [])]] = false.
+Proof. vm_compute. repeat split. Qed.
+
+(** ---- T2F7: two tables with string and package values in both ---- *)
+Definition t2f7_program : list (list ast) :=
+  [[ADevice 1 (f0_nm 0x44 0x45 0x56 0x30)
+      [AName (f0_nm 0x5f 0x48 0x49 0x44) (AStr [0x50; 0x4e; 0x50; 0x30; 0x41; 0x30; 0x33]);
+       AName (f0_nm 0x5f 0x50 0x52 0x57) (APackage 1 2 [AConst OP_BYTE 0x18; AConst OP_BYTE 4])];
+    AName (f0_nm 0x5f 0x53 0x35 0x5f) (APackage 1 4 [AConst OP_BYTE 5; AConst 0x00 0; AConst 0x00 0; AConst 0x00 0]);
+    AOpRegion (f0_nm 0x52 0x45 0x47 0x30) 1 (AConst OP_WORD 0x0cf8) (AConst OP_BYTE 8)];
+   [AName (f0_nm 0x53 0x53 0x44 0x54) (AStr [0x73; 0x73; 0x64; 0x74]);
+    AScope 1 (mkName true 0 false [seg4 0x5f 0x53 0x42 0x5f])
+      [ADevice 1 (f0_nm 0x44 0x45 0x56 0x31)
+         [AName (f0_nm 0x5f 0x43 0x49 0x44) (APackage 1 2 [AStr [0x41; 0x42]; AConst 0xff 0]);
+          AName (f0_nm 0x5f 0x55 0x49 0x44) (AConst 0x01 0)];
+       AEvent (f0_nm 0x45 0x56 0x54 0x30)];
+    AName (f0_nm 0x45 0x4d 0x50 0x54) (APackage 1 0 [])]].
+
+Example C11_parse_encode_partial_T2F7_nonvacuous :
+  wf_program t2f7_program = true /\ in_fragment_T2F7 t2f7_program = true /\ in_fragment_T2 t2f7_program = false /\
+  in_fragment_F7 t2f7_program = false /\ in_fragment_T2F7 t2_program = true.
+Proof. vm_compute. repeat split. Qed.
+
+Example C11_parse_encode_partial_T2F7_instance : parse_encode_statement t2f7_program.
+Proof. apply C11_parse_encode_partial_T2F7; vm_compute; reflexivity. Qed.
+
+Example C11_parse_encode_partial_T2F7_run : parse_program t2f7_program = (0, ns t2f7_program) /\ length (ns t2f7_program) = 11%nat.
+Proof. vm_compute. split; reflexivity. Qed.
+
+(** outside T2F7: one table, a Scope directive in the first table, a Buffer value, a nested package *)
+Example C11_fragment_T2F7_excludes :
+  in_fragment_T2F7 f7_program = false /\
+  in_fragment_T2F7 [[AScope 1 (mkName true 0 false [seg4 0x5f 0x53 0x42 0x5f]) []]; []] = false /\
+  in_fragment_T2F7 [[]; [AName (f0_nm 0x42 0x55 0x46 0x30) (ABuffer 1 (AConst OP_BYTE 2) [1; 2])]] = false /\
+  in_fragment_T2F7 [[AName (f0_nm 0x50 0x4b 0x47 0x30) (APackage 1 1 [APackage 1 0 []])]; []] = false.
 Proof. vm_compute. repeat split. Qed.
